@@ -30,7 +30,7 @@ var (
 	ProfC01 = Profile{Name: "C01", WInterest: 5, WData: 6, WAdv: 3, WFib: 1, WCap: 0, Localhost: 8, CsOn: 40, MaxOps: 40, RootCBP: 4}
 	ProfC02 = Profile{Name: "C02", WInterest: 8, WData: 2, WAdv: 4, WFib: 3, WCap: 0, Localhost: 5, CsOn: 25, MaxOps: 40}
 	ProfC09 = Profile{Name: "C09", WInterest: 6, WData: 5, WAdv: 2, WFib: 2, WCap: 0, Localhost: 75, CsOn: 60, MaxOps: 36, RootCBP: 10}
-	ProfC08 = Profile{Name: "C08", WInterest: 6, WData: 4, WAdv: 4, WFib: 1, WCap: 1, Localhost: 5, ShortLife: true, CsOn: 70, SmallCache: true, MaxOps: 40}
+	ProfC08 = Profile{Name: "C08", WInterest: 6, WData: 4, WAdv: 4, WFib: 1, WCap: 1, Localhost: 15, ShortLife: true, CsOn: 70, SmallCache: true, MaxOps: 40, RootCBP: 8}
 	ProfC07 = Profile{Name: "C07", WInterest: 6, WData: 5, WAdv: 3, WFib: 1, WCap: 1, Localhost: 5, CsOn: 100, SmallCache: true, MaxOps: 40}
 )
 
